@@ -221,6 +221,14 @@ EXTRA7 = {
  'C19': 'Nothing is stored into a per-variable value array after it is built; a data cell that holds the missing code is written with every digit of the code, as the header declares it (defect fixed in /repo 84c90cb); a comment attribute is flattened to one line before it is printed (defect fixed in /repo 5cfa62d).',
  'C20': 'PREC follows the last assignment to NEXP; blanks of the stamp become zeros before parsing.',
 }
+# clauses added with the defects repaired after the fifth refactoring wave
+EXTRA8 = {
+ 'C03': 'The output variable of applyAlongDimensions is created with the dtype of the computed values (defect fixed in /repo cf7dfff: the mean of integers was truncated).',
+ 'C04': 'Every stack override accepts the keywords the package passes to .stack() and binds its locals on every path (defect fixed in /repo 16a9565).',
+ 'C07': "A type code taken from dtype.char maps numpy's 'S' to the character type before createVariable (defect fixed in /repo 46d9062).",
+ 'C16': 'A file attribute reaches timedelta() in getTimes only through int() / float() (defect fixed in /repo bc98fd6: numpy TSTEP).',
+ 'C19': 'Header line 9 carries the units of the independent variable (defect fixed in /repo 62900c9).',
+}
 NA = {}
 
 CLAIMED.update({
@@ -258,6 +266,8 @@ def main():
             note = note + ' ' + EXTRA6[pid]
         if pid in EXTRA7:
             note = note + ' ' + EXTRA7[pid]
+        if pid in EXTRA8:
+            note = note + ' ' + EXTRA8[pid]
         note = note + ' Generic baseline-relative rules over the anchored files (pncstatic/generic.py): unused parameters, read mutable defaults, collapsed element-wise choices, uncalled methods, one-shot iterators, module and class state, truthiness defaults of numeric options, broken swaps, un-adapted sibling statements. Clauses added wave by wave are listed in DESIGN section 4.'
         mod = importlib.import_module('pncstatic.rules.%s' % pid.lower())
         checks.append(dict(
